@@ -2,10 +2,11 @@
 """Prints the prompt handed to an independent sub-agent for one property (nothing from /verif except the property text)."""
 import json,sys
 pid=sys.argv[1]
+suf=sys.argv[2] if len(sys.argv)>2 else ''
 p=[json.loads(l) for l in open('/verif/properties.jsonl') if json.loads(l)['id']==pid][0]
 print(f"""You are helping to evaluate a verification tool by writing a realistic *bug injection* for a Rust library.
 
-Your working copy is the git worktree /tmp/wt-{pid} (the Rust crate `delaunay` 0.7.1: D-dimensional Delaunay triangulation, incremental insertion, bistellar flips, validation levels). Work ONLY inside /tmp/wt-{pid}. Do not read or touch /verif or /repo. There is no network: always use `cargo ... --offline` (e.g. `CARGO_NET_OFFLINE=true cargo test --offline`). Put build output in the worktree's own target dir (default). Builds are slow (the crate is large): prefer `cargo test --offline --lib <filter>` and `cargo test --offline --test <name>` while iterating, and keep the number of full builds small.
+Your working copy is the git worktree /tmp/wt-{pid}{suf} (the Rust crate `delaunay` 0.7.1: D-dimensional Delaunay triangulation, incremental insertion, bistellar flips, validation levels). Work ONLY inside /tmp/wt-{pid}{suf}. Do not read or touch /verif or /repo. There is no network: always use `cargo ... --offline` (e.g. `CARGO_NET_OFFLINE=true cargo test --offline`). Put build output in the worktree's own target dir (default). Builds are slow (the crate is large): prefer `cargo test --offline --lib <filter>` and `cargo test --offline --test <name>` while iterating, and keep the number of full builds small.
 
 The semantic property the library is supposed to satisfy:
 
@@ -18,9 +19,9 @@ Task: make a small source change to the library (under src/) that BREAKS this pr
   2. the breakage needs something specific to manifest - a multi-step sequence of operations, an unusual or degenerate input, a particular dimension/option combination, a fault or failure at a particular point, or two cooperating sites that each look fine alone - NOT something that any ordinary use or the existing tests would expose at once;
   3. it is realistic: the kind of mistake a maintainer could make in a refactor or optimisation (a dropped update of a cache, an off-by-one in a bound, a wrong comparison, a skipped re-validation on one path, a rollback that forgets one field, ...), not sabotage like `if x == 42`.
 
-Also write a demonstration: a standalone Rust integration test file `tests/demo_{pid.lower()}.rs` in the worktree (using only the crate's public API) that FAILS with your change and PASSES on the original code (verify both by reverting and re-applying your patch with `git diff > /tmp/wt-{pid}/my.patch; git apply -R /tmp/wt-{pid}/my.patch` ... `git apply /tmp/wt-{pid}/my.patch`; do NOT use `git stash`: the stash is shared between worktrees and other people are working in sibling worktrees). Keep the demonstration minimal and deterministic.
+Also write a demonstration: a standalone Rust integration test file `tests/demo_{pid.lower()}.rs` in the worktree (using only the crate's public API) that FAILS with your change and PASSES on the original code (verify both by reverting and re-applying your patch with `git diff > /tmp/wt-{pid}{suf}/my.patch; git apply -R /tmp/wt-{pid}{suf}/my.patch` ... `git apply /tmp/wt-{pid}{suf}/my.patch`; do NOT use `git stash`: the stash is shared between worktrees and other people are working in sibling worktrees). Keep the demonstration minimal and deterministic.
 
-Deliverables (write them into /tmp/wt-{pid}/DELIVER/):
+Deliverables (write them into /tmp/wt-{pid}{suf}/DELIVER/):
   - patch.diff : `git diff` of your change to src/ only (not including the demo test)
   - demo_{pid.lower()}.rs : a copy of the demonstration test
   - notes.md : which property clause it breaks, what exactly is needed for it to manifest, the commands you ran with their results (with and without the patch).
